@@ -16,7 +16,8 @@ func init() {
 			"(iterator-element-not-discarded) in the packages that walk history for a transfer no call of an iterator's Next() throws the element away (first result assigned to _): 'is there another one' asked that way consumes it — " +
 			"every second parent of a merge was lost to the boundary walk; " +
 			"(commits-keyed-by-hash) no map in those packages is keyed by a pointer to a decoded object (every decode yields a new pointer, so such a map never recognises a commit reached twice). " +
-			"Found and fixed: all three (fd5a058, 3a7dafa). Not decided: negotiation, the objects selected (see C37), reference updates, termination.",
+			"(unshallow-only-walked) a client shallow is reported unshallowed only across the found-edge of a lookup in the set of commits this request's walk reached; (cursor-recomputed-after-removal) the client's update of its shallow list does not step an index over a list it shrinks. " +
+			"Found and fixed: the first three (fd5a058, 3a7dafa). Not decided: negotiation, the objects selected (see C37), reference updates, termination.",
 		Assumptions: []string{},
 		Run:         runC36,
 	})
